@@ -40,6 +40,27 @@ theorem rejects_robust_iff (b f k m n : Nat) (finite : Bool) :
     (rejects (.krum f k) [m, n] finite = true ↔ (finite = false ∨ m < f + 3 ∨ m < k)) := by
   cases finite <;> simp [rejects]
 
+/-- configurations refused at construction: a preference / weight / leak tensor that is not 1-d, a negative
+    `c` (CAGrad), a negative `n_byzantine` or `n_selected < 1` (Krum), a negative `trim_number` — and nothing else -/
+theorem ctor_rejects_iff (d : Nat) (od : Option Nat) (neg : Bool) (f k b : Int) :
+    (ctorRejects (.prefVector od) = true ↔ ∃ e, od = some e ∧ e ≠ 1) ∧
+    (ctorRejects (.constant d) = true ↔ d ≠ 1) ∧
+    (ctorRejects (.graddrop od) = true ↔ ∃ e, od = some e ∧ e ≠ 1) ∧
+    (ctorRejects (.cagrad neg) = true ↔ neg = true) ∧
+    (ctorRejects (.krum f k) = true ↔ (f < 0 ∨ k < 1)) ∧
+    (ctorRejects (.trimmedMean b) = true ↔ b < 0) := by
+  cases od <;> simp [ctorRejects]
+
+/-- every configuration the forward-time table `rejects` speaks about is one the constructor accepts: the two tables
+    compose (a configured row count comes from a 1-d tensor; `f, k, b` are the accepted naturals) -/
+theorem accepted_configurations (f k b : Nat) :
+    ctorRejects (.prefVector (some 1)) = false ∧ ctorRejects (.prefVector none) = false ∧
+    ctorRejects (.constant 1) = false ∧ ctorRejects (.graddrop (some 1)) = false ∧
+    ctorRejects (.graddrop none) = false ∧ ctorRejects (.trimmedMean (b : Int)) = false ∧
+    (1 ≤ k → ctorRejects (.krum (f : Int) (k : Int)) = false) := by
+  simp [ctorRejects]
+  omega
+
 /-! ### (b) positive homogeneity -/
 
 /-- every weighted combination is homogeneous once the weights are scale-invariant -/
